@@ -877,6 +877,25 @@ func vfGenConcCase(t *rapid.T, p *vfConcProfile, maxG int) *vfConcCase {
 				i += nb - 1
 				continue
 			}
+			if p.id == "C01" && strings.HasPrefix(c.HashMode, "collide") && rapid.IntRange(0, 19).Draw(t, "deadslot") == 0 {
+				// two keys that share their primary hash: one expires and is not swept yet, the other is deleted (which
+				// makes the accounting forget the shared hash) and written again, then both are read
+				m := int(c.HashMode[len(c.HashMode)-1] - '0')
+				a := rapid.IntRange(0, c.Keys-1).Draw(t, "deadA")
+				b := a + m
+				if b >= c.Keys {
+					b = a - m
+				}
+				if b >= 0 && b != a {
+					ttl := rapid.IntRange(1, 20).Draw(t, "deadttl")
+					prog = append(prog, vfCOp{Kind: "set", Key: a, Cost: 1, TTL: int64(ttl) * int64(time.Millisecond)}, vfCOp{Kind: "wait"},
+						vfCOp{Kind: "sleep", N: ttl + rapid.IntRange(1, 200).Draw(t, "deadsleep")},
+						vfCOp{Kind: "del", Key: b}, vfCOp{Kind: "set", Key: b, Cost: 1}, vfCOp{Kind: "wait"},
+						vfCOp{Kind: "get", Key: a}, vfCOp{Kind: "get", Key: b})
+					i += 7
+					continue
+				}
+			}
 			if p.id == "C08" && rapid.IntRange(0, 29).Draw(t, "expiredel") == 0 {
 				// entries that expire, a sleep past their bucket, wake-up exactly at the expiry tick, then their Del
 				nk := rapid.IntRange(2, 5).Draw(t, "nexp")
